@@ -42,7 +42,7 @@ pub struct Report {
     pub machinery_errors: Vec<String>,
 }
 
-const MAX_OUTCOMES: usize = 20_000;
+const MAX_OUTCOMES: usize = 100_000;
 const MAX_SAMPLES: usize = 6;
 const MAX_VIOLATIONS_KEPT: usize = 64;
 
